@@ -225,9 +225,7 @@ def run(tier, seed, replay=None):
                                theorem="C03_replies_only_to_requester / C03_unsolicited_collision_refuted"))
         if d and not bad:
             # model and code differ where the property holds on Go's behaviour: rerun (timing), then report
-            again, _ = cc.run_go(exe, [s], shards=1)
-            m = cc.run_model([s], variant)
-            d2 = cc.compare(s, again[0] if again else None, m[0]) if m else ["oracle"]
+            d2, _ = cc.recheck(exe, s, variant)
             if d2 and "correspondence" not in reported:
                 reported.add("correspondence")
                 res.violation("correspondence:C03/script", "Go and the model disagree on script %s though C03 holds on Go's run: %s" % (
